@@ -77,7 +77,8 @@ def _multi_clause(prog):
 def _strategy(nseeds):
     def f():
         progs = st.one_of(gp.programs(), gp.programs(), gp.programs(), gp.programs(error_clauses=True, max_preds=3),
-                          gp.programs(evidence_bias=True))
+                          gp.programs(evidence_bias=True), gp.programs(or_bias=True, max_preds=3),
+                          gp.reach_programs())
         # one case in three grounds with evidence propagation (the command line's default) in all runs
         return st.tuples(progs, st.lists(st.integers(0, 2 ** 31), min_size=nseeds, max_size=nseeds),
                          st.integers(0, 2)).map(lambda t: {"prog": t[0], "seeds": t[1], "propagate": t[2] == 0})
